@@ -185,8 +185,13 @@ def rank_mirror(tensor):
                     nxt.append(p)
         cur = nxt
     ranks = tensor.ranks
+    for i, lv in enumerate(levels):
+        if len({id(f) for f in lv}) != len(lv):
+            return f"depth {i}: one fiber object is stored at two positions of the tree"
     for i, r in enumerate(ranks):
         listed = [id(f) for f in r.getFibers()]
+        if len(set(listed)) != len(listed):
+            return f"rank {i}: a fiber is listed twice"
         live = [id(f) for f in levels[i]] if i < len(levels) else []
         if sorted(listed) != sorted(live):
             extra = len(set(listed) - set(live))
